@@ -16,6 +16,9 @@ probe 180, shutdown 60, term 60, staleRunLock 60; for `sb`: booting 100, probe 3
   uk <S> <b> <starting> <running> <givenup> <u>                  onUnkillable after givenup was set
      → `<S><b> d=<n>`
   sc <id:type:S:b:busy,…> <type>                                 StartContainer: `w<id>` allowed set joined by '|', `w0` = refused
+  o1 <st<u>|pa<u/…|->|sd<u>,…>                                 runner objects of one Idle run-mode worker: StartContainer (the
+     `crunch-run --detach` stays outstanding), probe applied with the listed uuids, completion of the outstanding start
+     → `<S> sg=<…> rg=<…> ex=<…>`, or `panic close of closed channel` (finding F15a)
 Scheduler response ops:
   sw <entries> <running> <qupdated> <anyunknown> <latched>       one sync pass (formats of C14 `sy`) → `forgets;effects;wake=<0|1>`
   fl <tl 0|1> <snap;snap;…>   snap = <unknown 0|1>~<entries>~<running u,…>   fixStaleLocks; every wait ends by a pool
@@ -24,6 +27,7 @@ Scheduler response ops:
 -/
 import ArvVerif.Base.Loop
 import ArvVerif.Model.C15
+import ArvVerif.Model.C15_O1
 open ArvVerif ArvVerif.C14 ArvVerif.C15
 
 namespace C15Drv
@@ -137,6 +141,16 @@ def stepW (f : List String) : Option String :=
       | _ => none)
     let c := Pool.startCandidates ⟨workers, []⟩ (← ty.toNat?)
     pure (if c.isEmpty then "w0" else "|".intercalate ((sortNat c).map (fun i => s!"w{i}")))
+  | ["o1", ops] => do
+    let ops ← (ops.splitOn ",").mapM (fun o =>
+      if o.startsWith "st" then (o.drop 2).toString.toNat?.map RWOp.accept
+      else if o.startsWith "sd" then (o.drop 2).toString.toNat?.map RWOp.startDone
+      else if o.startsWith "pa" then (parseUs (o.drop 2).toString).map RWOp.probe
+      else none)
+    match RW.fresh.run ops with
+    | none => pure "panic close of closed channel"
+    | some w =>
+      pure s!"{showWS w.state} sg={showUs (sortNat (w.starting.map (·.1)))} rg={showUs (sortNat (w.running.map (·.1)))} ex={showUs (sortNat w.exited)}"
   | _ => none
 
 /-! scheduler ops -/
